@@ -7,12 +7,12 @@ package dag
 
 //@ fn newBadRequestError(err) (r)
 //@   props C20
-//@   trusted
+//@   requires err != nil
 //@   modifies heap(alloc)
 //@   ensures r != nil && r.Code == 400
 //@ fn newInternalError(err) (r)
 //@   props C20
-//@   trusted
+//@   requires err != nil
 //@   modifies heap(alloc)
 //@   ensures r != nil && r.Code == 500
 
